@@ -18,4 +18,8 @@ v = tlaval.parse_value('<<\"H\", [a |-> 1, b |-> <<TRUE, {1,2}>>], (1 :> \"x\" @
 assert v[1]['b'][0] is True and v[2][2] == 'y'
 print('tlaval ok')
 "
+# binding self-test: hand-written traces, one accepted and single-field corruptions that must be rejected with the
+# named clause (the trace specifications are not vacuous)
+if ! /venv/bin/python tools/bindingtest.py > out/bindingtest.log 2>&1; then echo "binding self-test failed (out/bindingtest.log)"; fail=1; fi
+tail -1 out/bindingtest.log
 exit $fail
